@@ -55,7 +55,7 @@ int main(void)
 		if (memlimit == 0) memlimit = UINT64_MAX;
 		lzma_options_lzma ol; lzma_lzma_preset(&ol, 0); ol.dict_size = flags;
 		lzma_filter f2[2] = {{LZMA_FILTER_LZMA2, &ol}, {LZMA_VLI_UNKNOWN, NULL}};
-		lzma_mt mt = { .flags = flags, .threads = 1 + (unsigned)(seed % 4), .timeout = (seed / 4) % 2 ? 0 : 3, .memlimit_threading = memlimit, .memlimit_stop = memlimit };
+		lzma_mt mt = { .flags = flags, .threads = 1 + (unsigned)(seed % 4), .timeout = (seed / 4) % 2 ? 0 : ((seed / 8) % 2 ? 1 : 3), .memlimit_threading = memlimit, .memlimit_stop = memlimit };
 		if (kind == 6) {
 			uint64_t ml = memlimit; size_t ip = 0, op = 0;
 			r = lzma_stream_buffer_decode(&ml, flags, NULL, in, &ip, n, out, &op, OUTCAP);
